@@ -1,5 +1,5 @@
 (* C08 driver.
-   goaway  <ops>            ops = comma list of A<id> | S<n> | P | C<id> | G<pushid>
+   goaway  <ops>            ops = comma list of A<id> | S<n> | P | C<id> | G<pushid> | b (control-stream write budget := 0) | W<k> (grant k bytes)
                             prints `ok <group> <group> ...` (one group per op: outputs joined by ',', `.` = none)
                             | verdict of the line monitor (Spec/GoawaySpec.v) on the model's trace, and that trace again
    gchk    <ops> <groups>   verdict of the line monitor on a GIVEN trace (used on the implementation's traces)
@@ -29,6 +29,7 @@ let verdict t = match mon_fail_at mon0 t N0 with None -> "line-ok" | Some i -> "
 let code_of s = if s = "-" then None else Some (n_of_string s)
 let parse_out tok =
   if tok = "none" then ENone else if tok = "pend" then EPending
+  else if String.length tok > 5 && String.sub tok 0 5 = "serr:" then EErr (num tok 5)
   else if String.length tok > 4 && String.sub tok 0 4 = "err:" then
     (* err:<code><variant letter>/close:<code> *)
     let j = ref 4 in
@@ -42,9 +43,11 @@ let parse_out tok =
             | [id; st; rs] -> ERejected (n_of_string id, code_of st, code_of rs)
             | _ -> failwith "bad rejected")
   | _ -> failwith ("bad output " ^ tok)
-let in_event = function
-  | Arrive id -> EArrive id | Shutdown n -> EShutdown n | Poll -> EPoll
-  | Complete id -> EComplete id | PeerGoaway p -> EPeerGoaway p
+let parse_wop tok =
+  match tok.[0] with
+  | 'b' -> WBlock
+  | 'W' -> WGrant (num tok 1)
+  | _ -> WOp (parse_gop tok)
 let parse_cop tok =
   match tok.[0] with
   | 'g' -> KGoaway (num tok 1)
@@ -63,23 +66,34 @@ let show_cout = function
   | _ -> None
 let cgroup outs = match List.filter_map show_cout outs with [] -> "." | l -> String.concat "," l
 let base f = match String.index_opt f '.' with Some i -> String.sub f 0 i | None -> f
+let in_event = function
+  | Arrive id -> EArrive id | Shutdown n -> EShutdown n | Poll -> EPoll
+  | Complete id -> EComplete id | PeerGoaway p -> EPeerGoaway p
 let handle ws =
   let ws = (match ws with f :: r -> base f :: r | [] -> []) in
   match ws with
   | ["goaway"; ops] ->
-      let ops = List.map parse_gop (String.split_on_char ',' ops) in
-      let g = ref gstate0 in
+      let ops = List.map parse_wop (String.split_on_char ',' ops) in
+      let w = ref wstate0 in
       let trace = ref [] in
       let groups = List.map (fun o ->
-        let (outs, g') = gstep !g o in
-        g := g'; trace := !trace @ outs; group outs) ops in
+        let (outs, w') = wstep !w o in
+        w := w';
+        trace := !trace @ List.filter_map (function WE e -> Some e | _ -> None) outs;
+        let show e = (match o, e with
+          | WOp (Shutdown _), EErr c -> Some ("serr:" ^ string_of_n c)
+          | _ -> show_out e) in
+        match List.filter_map (function WE e -> show e | WPending -> Some "wpend" | _ -> None) outs with
+        | [] -> "." | l -> String.concat "," l) ops in
       let gs = String.concat " " groups in
       "ok " ^ gs ^ " | " ^ verdict !trace ^ " " ^ gs
   | "gchk" :: ops :: groups ->
-      let ops = List.map parse_gop (String.split_on_char ',' ops) in
+      let ops = List.map parse_wop (String.split_on_char ',' ops) in
       if List.length ops <> List.length groups then "line-bad@shape | line-bad@shape" else begin
         let t = List.concat (List.map2 (fun o gr ->
-          in_event o :: (if gr = "." then [] else List.map parse_out (String.split_on_char ',' gr))) ops groups) in
+          (match o with WOp g -> [in_event g] | _ -> []) @
+          (if gr = "." then [] else
+             List.filter_map (fun x -> if x = "wpend" then None else Some (parse_out x)) (String.split_on_char ',' gr))) ops groups) in
         let v = verdict t in v ^ " | " ^ v end
   | ["cgoaway"; ops] ->
       let ops = List.map parse_cop (String.split_on_char ',' ops) in
